@@ -198,6 +198,8 @@ structure Fc where
   y : Series                    -- `_y`
   fhSet : Bool                  -- `_fh is not None`
   train : Option (List Rat)     -- values the regression pipeline was last fitted on (`none`: re-created, not fitted)
+  origin : Option Int           -- `_fit_start`: first time point of the data seen in the last `fit` = origin of the
+                                --   regression's time axis (repo commit ea521a6; before it `_y.index[0]` was read at predict time)
 
 structure Det where
   degree : Nat
@@ -224,12 +226,15 @@ def insertObs (t : Int) (v : Val) : Series → Series
 /-- `new.combine_first(old)` for batches with strictly increasing labels -/
 def combineFirst (new old : Series) : Series := new.foldl (fun acc p => insertObs p.1 p.2 acc) old
 
+/-- first label of a series (`y.index[0]`) -/
+def firstLabel (y : Series) : Option Int := (labels y).head?
+
 def detFit (s : Det) (inp : Input) : Det × Out :=
   match checkSeries false inp with
   | .error e => (s, .err e)
   | .ok z =>
     if !regFitOk z then (s, .err .value)
-    else ({ s with fc := some ⟨z, false, some (someVals z)⟩, fitted := true }, .ok)
+    else ({ s with fc := some ⟨z, false, some (someVals z), firstLabel z⟩, fitted := true }, .ok)
 
 /-- `forecaster_.predict(ForecastingHorizon(z.index, is_relative=False))` then `z ∓ z_pred`.
 The horizon is stored (`_set_fh`) before `_predict` can fail. -/
@@ -244,15 +249,16 @@ def detApply (reg : Reg) (s : Det) (inv : Bool) (inp : Input) : Det × Out :=
         if !decide (labels z).Nodup then (s, .err .value)
         else
           let s' := { s with fc := some { fc with fhSet := true } }
-          match fc.train, fc.y.head? with
-          | some tv, some (o, _) =>
+          match fc.train, fc.origin with
+          | some tv, some o =>
             (s', .ser (z.map (fun p =>
               (p.1, (if inv then vadd else vsub) p.2 (reg s.degree tv (p.1 - o))))))
           | _, _ => (s', .err .notfitted)
 
 /-- `Detrender.update`: `check_is_fitted()` first (repo commit b2363ba), then
 `forecaster_.update(z, update_params=…)`: `_update_y_X`, then `self.fit(self._y, self._X, self.fh)`
-where `self.fh` raises if no horizon was ever set; the refit re-creates the pipeline before fitting it. -/
+where `self.fh` raises if no horizon was ever set; the refit re-creates the pipeline and moves the origin of
+the time axis to the first remembered time point before fitting the pipeline.  Without a refit the origin stays. -/
 def detUpdate (s : Det) (inp : Input) (updParams : Bool) : Det × Out :=
   if !s.fitted then (s, .err .notfitted)
   else match checkSeries true inp with
@@ -264,8 +270,9 @@ def detUpdate (s : Det) (inp : Input) (updParams : Bool) : Det × Out :=
       let y' := if z.isEmpty then fc.y else combineFirst z fc.y
       if !updParams then ({ s with fc := some { fc with y := y' } }, .ok)
       else if !fc.fhSet then ({ s with fc := some { fc with y := y' } }, .err .value)
-      else if regFitOk y' then ({ s with fc := some { fc with y := y', train := some (someVals y') } }, .ok)
-      else ({ s with fc := some { fc with y := y', train := none } }, .err .value)
+      else if regFitOk y' then
+        ({ s with fc := some { fc with y := y', train := some (someVals y'), origin := firstLabel y' } }, .ok)
+      else ({ s with fc := some { fc with y := y', train := none, origin := firstLabel y' } }, .err .value)
 
 -- ---------------------------------------------------------------------------------------------
 -- column-wise transformers around an uninterpreted library function
